@@ -1104,11 +1104,13 @@ def diff_float_profile(ctx, how, c, impl, model):
                     break
             if worst:
                 break
+    if how == 'iter' and len(parts) == 4:
+        h = ctx.extra.setdefault('iterative_algorithm_iterations_histogram', {})
+        h[parts[1]] = h.get(parts[1], 0) + 1
     if ok and not worst:
         return
     if how == 'iter' and len(parts) == 4:
         res, acc = parse_f(parts[2]), parse_f(parts[3])
-        ctx.extra.setdefault('iter_iterations', []).append(int(parts[1]))
         if abs(res - 1e-6) < 1e-9 * 1e-6 or abs(acc - 1e-3) < 1e-9 * 1e-3:
             ctx.count('iter_threshold_tie_skipped')
             return
@@ -1139,13 +1141,13 @@ def run(ctx):
         cases = [json.load(open(ctx.replay))['case']]
     else:
         eq0, _ = base_eq()
-        cases += [gen_fiber_case(rng) for _ in range(ctx.scale(200, 3000))]
+        cases += [gen_fiber_case(rng) for _ in range(ctx.scale(180, 3000))]
         cases += [gen_path_case(rng, eq0) for _ in range(ctx.scale(32, 400))]
         cases += [gen_path_case(rng, eq0, max_units=rng.choice([3, 4, 4])) for _ in range(ctx.scale(6, 60))]
-        cases += [gen_merge_case(rng) for _ in range(ctx.scale(100, 1500))]
+        cases += [gen_merge_case(rng) for _ in range(ctx.scale(80, 1500))]
         cases += [gen_euler_case(rng) for _ in range(ctx.scale(40, 500))]
-        cases += [gen_pert_case(rng) for _ in range(ctx.scale(60, 800))]
-        cases += [gen_iter_case(rng) for _ in range(ctx.scale(40, 500))]
+        cases += [gen_pert_case(rng) for _ in range(ctx.scale(48, 800))]
+        cases += [gen_iter_case(rng) for _ in range(ctx.scale(32, 500))]
         cases += [gen_raman_low_case(rng) for _ in range(ctx.scale(20, 300))]
         cases += [gen_raman_cmp_case(rng) for _ in range(ctx.scale(6, 60))]
         cases += [gen_raman_pump_case(rng) for _ in range(ctx.scale(16, 200))]
@@ -1242,7 +1244,7 @@ def run(ctx):
     terms = [terms[i] for i in order]
     post = [post[i] for i in order]
     lines = common.coq_eval('C05', 'Prelude Model.Fiber Run.C05', terms, per_file=ctx.scale(10, 40), prelude='Open Scope Q_scope.')
-    flines = common.coq_eval('C05', 'Prelude Num NumRun Model.Raman Run.C05F', fterms, per_file=ctx.scale(8, 40), tag='fcases',
+    flines = common.coq_eval('C05', 'Prelude Num NumRun Model.Raman Run.C05F', fterms, per_file=ctx.scale(20, 60), tag='fcases',
                              prelude='Open Scope float_scope.')
     ctx.extra['coq_eval_seconds'] = round(time.time() - t_coq, 2)
     for (how, c, impl), model in zip(fpost, flines):
@@ -1268,19 +1270,27 @@ def run(ctx):
     ctx.notes += [
         'PROVED (Props/C05.v): Raman-off budget for every lumped-loss list (repeated positions accumulate, fix d757514e); merged grid '
         'carries the total of all lumped losses and is sorted; path additivity / permutation invariance of CD, latency, PMD^2, PDL^2; '
-        'PMD/PDL quadrature over R and its rational squared form; pi cancels in the span CD for scalar, slope and table dispersion; '
-        'Euler zero-power closed form, its real limit as the input powers go to 0, each lumped loss once on the solver grid, the '
-        'discretisation bound |ln prod(1-alpha dz)+alpha L| <= 2 sum (alpha dz)^2; first-order pump gain >= 0.',
-        'TEST ONLY (not proved, numerical comparison on the real RamanSolver): (a) low-power limit vs budget — perturbative orders 1-4 '
-        'within 1e-7 dB, numerical within the proved discretisation bound 2*4.343*sum((alpha dz_k)^2) dB + 1e-7 dB (when alpha dz <= 1/2) '
-        'and within 1e-7 dB of the proved closed form (exact, grids <= 60 points); (b) perturbative (orders 1-4) vs numerical SRS gain after '
-        'removing each method\'s zero-power attenuation: tolerance 1e-5 + 3*g*(alpha*dz + dz/L) dB (+ 4.343*(g/4.343)^2 dB for order 1), '
-        'g = max |SRS gain| in dB; measured on the unchanged code: worst residual/tolerance ~0.35; (c) counter-propagating pumps '
-        '(iterative algorithm) never lower any channel at any z by more than 1e-6 dB relative to the same fibre without them, both '
-        'integrated by the Euler scheme on the same grid (measured minimum on the unchanged code: 0.0 dB); (d) the co/counter solution '
-        '(signals and pumps, every result z) vs an independent fixed point of the bidirectional Euler scheme on the same NON-UNIFORM grid '
-        '(random lengths, steps 100 m - 10 km, off-grid lumped losses): tolerance 5e-2 dB; measured on the unchanged code over 1000 cases: '
-        'median 1e-10 dB, worst 1.4e-2 dB (the solver stops at accuracy 1e-3).',
+        'PMD/PDL quadrature over R for fibres, amplifiers and ROADMs and its rational squared form; pi cancels in the span CD for scalar, '
+        'slope and table dispersion; Euler scheme: zero-power closed form, its real limit as the input powers go to 0, each lumped loss '
+        'once on the solver grid, discretisation bound |ln prod(1-alpha dz)+alpha L| <= 2 sum (alpha dz)^2; perturbative solver order 1: '
+        'low-power bound |exponent + alpha z| <= max|cr| * P_tot * z, zero-coupling profile = p * lumped-so-far * exp(-alpha z) with each '
+        'lumped loss once, agreement with the Euler scheme in the zero-power limit up to the discretisation factor; iterative algorithm: '
+        'the backward sweep consumes the step lengths of the (uniform or non-uniform) grid in reverse order, each once, and at zero '
+        'coupling gives every counter-propagating wave the product over the last i steps; first-order pump gain >= 0.',
+        'MODELLED AND RUN AGAINST THE CODE (binary64 instance NumF of Model/Raman.v, same Gallina terms as the theorems, 1e-9 relative): '
+        'RamanSolver.calculate_unidirectional_stimulated_raman_scattering method perturbative, orders 0-4, incl. lumped losses, on random '
+        'non-uniform grids; RamanSolver.iterative_algorithm (forward + backward Euler sweeps and stopping rule) on random non-uniform grids '
+        'with lumped losses.  That NumF approximates NumR is not proved (trusted base).',
+        'TEST ONLY (not proved, numerical comparison on the real RamanSolver): (a) low-power limit of Fiber.__call__ vs budget — '
+        'perturbative orders 1-4 within 1e-7 dB, numerical within the proved discretisation bound 2*4.343*sum((alpha dz_k)^2) dB + 1e-7 dB '
+        '(when alpha dz <= 1/2) and within 1e-7 dB of the proved closed form (exact, grids <= 60 points); (b) perturbative orders 2-4 vs '
+        'numerical SRS gain at non-zero power after removing each method\'s zero-power attenuation: tolerance 1e-5 + 3*g*(alpha*dz + dz/L) dB '
+        '(+ 4.343*(g/4.343)^2 dB for order 1), g = max |SRS gain| in dB; measured on the unchanged code: worst residual/tolerance ~0.35; '
+        '(c) counter-propagating pumps never lower any channel at any z by more than 1e-6 dB relative to the same fibre without them, both '
+        'integrated by the Euler scheme on the same grid (measured minimum on the unchanged code: 0.0 dB); (d) the converged co/counter '
+        'solution of calculate_stimulated_raman_scattering (signals and pumps, every result z) vs an independent fixed point of the '
+        'bidirectional Euler scheme on the same NON-UNIFORM grid: tolerance 5e-2 dB; measured on the unchanged code over 1000 cases: median '
+        '1e-10 dB, worst 1.4e-2 dB (the solver stops at accuracy 1e-3).',
         'The raw difference between the numerical and perturbative methods is dominated by the Euler bias (0.018 dB per 80 km at 50 m '
         'steps, 5.4 dB at the RamanParams default solver_spatial_resolution of 10 km): the methods agree only up to that bound.',
     ]
@@ -1290,6 +1300,7 @@ def run(ctx):
         'pi enters the dispersion formulas of the model as the rational 355/113; cd_scalar / cd_slope / cd_table_pi_indep prove that it cancels',
         'amplifier and ROADM PMD/PDL values fed to the model come from the generated equipment configuration (the auto-selected amplifier '
         'variety and the ROADM variety are read from the built elements)',
-        'Raman solver beyond the Euler zero-power limit and first-order pump gain is compared numerically only (see notes)',
+        'perturbative orders 2-4 at non-zero power and convergence of the iterative algorithm are modelled and executed (NumF) but only '
+        'their order-1 / zero-coupling / structural properties are proved (see notes)',
     ]
     return common.finish(ctx)
